@@ -69,7 +69,7 @@ class C09(fw.Prop):
             "round trip through the parser of the kind; fault enumeration (also the failing-input search): every single-bit flip of every "
             "generated frame <= 40 bytes (thorough: all), all 2- and 3-bit flips and all bursts <= 16 bits on frames <= 16 bytes, every "
             "truncation point, appended bytes; each corrupted string must be refused or yield the original content; every parser is also "
-            "run on frames of the other kinds and on random strings (model correspondence); stations with reserved values (0x7E, 0x7F, 0x3FFE, 0x3FFF), address bytes equal to the flag, form boundaries and random ones for every kind; sequences of frames whose address fields share their first bytes parsed one after the other; non-trivial = distinct protocol line set")
+            "run on frames of the other kinds and on random strings (model correspondence); stations with reserved values (0x7E, 0x7F, 0x3FFE, 0x3FFF), address bytes equal to the flag, form boundaries and random ones for every kind; sequences of frames whose address fields share their first bytes parsed one after the other; every parser also fed a bytearray; the longest frames (payload 2028..2031) from one-, two- and four-byte stations; non-trivial = distinct protocol line set")
     trusted_base = ["Spec.Hdlc is my reading of IEC 62056-46 frame format type 3", "C12 (check sequence = X-25), C13 (addresses), C20 (control/format fields)"]
     assumptions = ["the header check sequence is emitted for the kinds that can carry information (UA, I, UI) even when the information field is empty, as the library does",
                    "poll/final is always 1 on SNRM, UA, DISC and RR (their control fields have no final attribute)"]
